@@ -28,6 +28,9 @@ type Late struct {
 	Strict bool     `json:"strict"`
 	// Background: crl_fetch_mode fetch_background (a first load then runs inside a refresh run, without the entry lock)
 	Background bool `json:"background,omitempty"`
+	// InitialHeld: per cycle: before the cycle proper, a validator is provisioned whose update goroutine is held in its
+	// very first refresh pass while Cleanup is called; the pass is released afterwards
+	InitialHeld []bool `json:"initial_held,omitempty"`
 	// BadFirst: per cycle: before the cycle's provisioning, a provisioning attempt with a broken configuration (an
 	// additional crl_url that serves no CRL) fails on the same work_dir and is cleaned up by the host
 	BadFirst []bool `json:"bad_first,omitempty"`
@@ -65,6 +68,7 @@ func genLate(t *rapid.T) Late {
 		c.Sites = append(c.Sites, rapid.SampledFrom(sites).Draw(t, fmt.Sprintf("site%d", i)))
 		c.NewOK = append(c.NewOK, ok)
 		c.BadFirst = append(c.BadFirst, rapid.IntRange(0, 2).Draw(t, fmt.Sprintf("badfirst%d", i)) == 0)
+		c.InitialHeld = append(c.InitialHeld, rapid.IntRange(0, 2).Draw(t, fmt.Sprintf("initialheld%d", i)) == 0)
 	}
 	return c
 }
@@ -105,6 +109,44 @@ func runLate(c Late, x *ev.Ctx) error {
 				return fmt.Errorf("cycle %d: a configuration with a crl_url that serves no CRL was provisioned", i)
 			}
 			x.Class("failed-provisioning-before-the-cycle")
+		}
+		if i < len(c.InitialHeld) && c.InitialHeld[i] {
+			var once0 sync.Once
+			at0, release0 := make(chan struct{}), make(chan struct{})
+			verifhook.Set(func(n string) {
+				if n == "checker.update.start" {
+					once0.Do(func() {
+						close(at0)
+						<-release0
+					})
+				}
+			})
+			o0 := opts
+			o0.NoSettle = true // the only refresh pass is the update goroutine's own first one
+			c0, err := world.NewChecker(o0)
+			if err != nil {
+				close(release0)
+				return fmt.Errorf("cycle %d: provisioning failed: %v", i, err)
+			}
+			select {
+			case <-at0:
+				x.Class("cleanup-while-the-update-goroutine-is-in-its-first-pass")
+			case <-time.After(world.DefaultWatchdog):
+			}
+			cerr := make(chan error, 1)
+			go func() {
+				_, err := world.Call("Cleanup", 2*time.Minute, func() int { c0.Cleanup(); return 0 })
+				cerr <- err
+			}()
+			time.Sleep(50 * time.Millisecond)
+			close(release0)
+			if err := <-cerr; err != nil {
+				return fmt.Errorf("cycle %d: Cleanup while the update goroutine was in its first pass never returned: %v", i, err)
+			}
+			verifhook.Set(nil)
+			if err := settledWithin(wd, base, fmt.Sprintf("cycle %d, after Cleanup arrived while the update goroutine was in its first refresh pass", i), 45*time.Second); err != nil {
+				return err
+			}
 		}
 		ch, err := world.NewChecker(opts)
 		if err != nil {
@@ -237,7 +279,7 @@ var lateSpec = ev.Spec[Late]{
 	ID:   "C20",
 	Gen:  genLate,
 	Run:  runLate,
-	Rule: "late activity: 1..5 provision/cleanup cycles on one work_dir in which Cleanup arrives while a refresh or the first load of a further location is held at one of the verif hook sites (download done, parsed, accepted, before/after the store swap, every step of the LevelDB / map swap); the held activity is then released and finishes AFTER Cleanup; the offered list is acceptable or garbage; disk or memory, fetch_actively or fetch_background, optionally a configured crl_url; optionally a provisioning attempt with a broken configuration (rejected, cleaned up by the host) precedes a cycle. Oracles: Cleanup returns; the activity finishes; afterwards (within 45 s: refresh runs that were under way wind down in bounded time) no goroutine of the plugin/leveldb is alive and no file descriptor of the process points into work_dir; the next provisioning on the same work_dir succeeds and the listed certificate is revoked, the unlisted one accepted. Non-trivial: the activity really was held at the site at least once.",
+	Rule: "late activity: 1..5 provision/cleanup cycles on one work_dir in which Cleanup arrives while a refresh or the first load of a further location is held at one of the verif hook sites (download done, parsed, accepted, before/after the store swap, every step of the LevelDB / map swap); the held activity is then released and finishes AFTER Cleanup; the offered list is acceptable or garbage; disk or memory, fetch_actively or fetch_background, optionally a configured crl_url; optionally a validator that is cleaned up while its update goroutine is still in its first refresh pass, optionally a provisioning attempt with a broken configuration (rejected, cleaned up by the host) precedes a cycle. Oracles: Cleanup returns; the activity finishes; afterwards (within 45 s: refresh runs that were under way wind down in bounded time) no goroutine of the plugin/leveldb is alive and no file descriptor of the process points into work_dir; the next provisioning on the same work_dir succeeds and the listed certificate is revoked, the unlisted one accepted. Non-trivial: the activity really was held at the site at least once.",
 }
 
 func TestLate(t *testing.T)       { ev.Check(t, lateSpec) }
